@@ -242,7 +242,8 @@ def run(ctx):
             for c in calls_in(g.parent):
                 if isinstance(c.func, ast.Name) and c.func.id == g.name:
                     for i, arg in enumerate(c.args):
-                        if isinstance(arg, ast.Name) and (arg.id in outer_prod or arg.id in outer_loop_prod) and i < len(g.params):
+                        direct = isinstance(arg, ast.Call) and isinstance(arg.func, ast.Attribute) and arg.func.attr == "producer"
+                        if (direct or (isinstance(arg, ast.Name) and (arg.id in outer_prod or arg.id in outer_loop_prod))) and i < len(g.params):
                             prod.add(g.params[i])
         if not prod:
             continue
